@@ -11,7 +11,7 @@ from vf.util import Violation, jsonable, rng_for
 ID = "C17"
 LEVEL = "exploration"
 RULE = (
-    "random right/left vector sets (real/complex, L = R orthonormal, L != R biorthogonal, also non-biorthogonal and rank-0), random "
+    "random right/left vector sets (real/complex and mixed real/complex or float32 dtypes, L = R orthonormal, L != R biorthogonal, also non-biorthogonal and rank-0), random "
     "operator-expression trees of depth <= 4 over {P, sparse A, dense B, .T, .H, P.conjugate(), @, +, scalar*} are evaluated twice - "
     "with scipy LinearOperators built on the real ComplementProjector and with dense matrices built on 1 - R L^dagger - and applied "
     "to random real/complex vectors and matrices from the left (op @ x) and from the right (x @ op), plus matvec/rmatvec/matmat/"
@@ -70,7 +70,7 @@ def run_case(spec):
     N = int(rng.integers(2, 9))
     k = int(rng.integers(0, N))
     cplx = bool(rng.integers(0, 2))
-    mode = str(rng.choice(["hermitian", "hermitian_same_object", "biorthogonal", "generic"]))
+    mode = str(rng.choice(["hermitian", "hermitian_same_object", "biorthogonal", "generic", "generic_mixed", "biorthogonal_mixed"]))
 
     def rnd(shape):
         a = rng.integers(-6, 7, size=shape) / 4.0
@@ -88,6 +88,27 @@ def run_case(spec):
         R, L = M[:, :k], Mi.conj().T[:, :k]
         P = ComplementProjector(R, L)
         biorth = True
+    elif mode == "generic_mixed":
+        # one vector set real, the other complex (dtype mixture)
+        A1 = rng.integers(-6, 7, size=(N, k)) / 4.0
+        A2 = rng.integers(-6, 7, size=(N, k)) / 4.0 + 1j * rng.integers(-6, 7, size=(N, k)) / 4.0
+        R, L = (A1, A2) if rng.random() < 0.5 else (A2, A1)
+        if rng.random() < 0.3:
+            R = R.astype(np.float32 if np.isrealobj(R) else np.complex64)
+        P = ComplementProjector(R, L)
+        biorth = False
+        cplx = True
+    elif mode == "biorthogonal_mixed":
+        # real R, complex L with L^dagger R = 1 (or the other way round): L = R (R^T R)^-1 + i Nn, Nn^T R = 0
+        Rr = rng.integers(-6, 7, size=(N, k)) / 4.0 + np.eye(N)[:, :k] * 3
+        Lr = Rr @ np.linalg.inv(Rr.T @ Rr) if k else Rr
+        Z = rng.integers(-6, 7, size=(N, k)) / 4.0
+        Nn = Z - Rr @ np.linalg.solve(Rr.T @ Rr, Rr.T @ Z) if k else Z
+        Lc = Lr + 1j * Nn
+        R, L = (Rr, Lc) if rng.random() < 0.5 else (Lc, Rr)
+        P = ComplementProjector(R, L)
+        biorth = True
+        cplx = True
     else:
         R, L = rnd((N, k)), rnd((N, k))
         P = ComplementProjector(R, L)
@@ -99,7 +120,8 @@ def run_case(spec):
     if tuple(P.shape) != (N, N):
         raise Violation(f"shape {P.shape} != {(N, N)}")
     want_dtype = np.result_type(R.dtype, L.dtype)
-    if np.dtype(P.dtype) != want_dtype:
+    # (with no vectors at all the projector is the identity and either dtype is consistent)
+    if k > 0 and np.dtype(P.dtype) != want_dtype:
         raise Violation(f"dtype {P.dtype} != result_type of the vectors {want_dtype}")
     # caching identities
     if P.T.T is not P or P.H.H is not P or P.conjugate().conjugate() is not P:
@@ -134,6 +156,12 @@ def run_case(spec):
     close(P.H @ x, D.conj().T @ x, "P.H @ x")
     close(P.conjugate() @ x, D.conj() @ x, "conj(P) @ x")
     close(P._apply(x), D @ x, "P._apply")
+    close(P.T.H @ x, D.conj() @ x, "P.T.H @ x")
+    close(P.H.T @ x, D.conj() @ x, "P.H.T @ x")
+    close(P.H.conjugate() @ x, D.T @ x, "conj(P.H) @ x")
+    close(P.conjugate().T @ x, D.conj().T @ x, "conj(P).T @ x")
+    close(P.T.conjugate() @ x, D.conj().T @ x, "conj(P.T) @ x")
+    close(P.conjugate().H @ x, D.T @ x, "conj(P).H @ x")
     if biorth:
         close(P @ (P @ X), D @ X, "idempotency P P X = P X")
         counters["idempotency_checks"] += 1
@@ -174,7 +202,7 @@ def run_case(spec):
 def finalize(c, tier, evaluations, distinct):
     reasons = []
     need = dict(comparisons=20000, trees_with_P=3000, trees_P_under_unary_in_composition=300, idempotency_checks=500,
-                mode_biorthogonal=200, mode_hermitian=200, mode_generic=200, complex=500, real=500)
+                mode_biorthogonal=200, mode_hermitian=200, mode_generic=200, mode_generic_mixed=200, mode_biorthogonal_mixed=200, complex=500, real=500)
     for k, v in need.items():
         if c.get(k, 0) < v:
             reasons.append(f"{k} observed only {c.get(k, 0)} (< {v})")
